@@ -52,8 +52,12 @@ func c20(c *Ctx) {
 	// ---- clamp before appendStreamFrame
 	const DTS = "dataToSend(min($r.out.start,$r.outwin),min($r.outflushed,$r.outwin),$r.outunsent,$r.outacked,$2)"
 	asf := Calls(asfName)
-	c.QaClampedOrExempt(aof, asf, 3, "min(…, outmaxsent+outflow.avail())",
-		QaMinWith("($r.outmaxsent+avail(&$r.conn.streams.outflow))"), DTS+"#0+"+DTS+"#1 <= $r.outmaxsent")
+	// frame offset + frame size never exceeds what flow control allows: it stays
+	// within outmaxsent (no new credit needed), or is cut to outmaxsent+outflow.avail()
+	// (floored at the offset, i.e. size 0). Proved over the values reaching the
+	// call, so min()/max() and explicit if-clamps are the same to the rule.
+	c.Q1ArgSumBounded(aof, asf, 3, 2, "offset+size is bounded by outmaxsent, or cut to min(…, outmaxsent+outflow.avail()) floored at the offset",
+		"$r.outmaxsent", "$r.outmaxsent + avail(&$r.conn.streams.outflow)", "arg:2")
 	c.Has(aof, asf.ArgIs(2, DTS+"#0"))
 	dts := Calls("quic.dataToSend")
 	c.QaArgSatisfies(aof, dts, 0, "min(…, outwin)", QaMinWith("$r.outwin"))
